@@ -61,6 +61,7 @@ import zoneinfo
 import pytz
 
 import taskiq.cli.scheduler.run as run
+import patchall
 from taskiq.scheduler.scheduled_task import ScheduledTask
 
 EP = dt.datetime(1970, 1, 1, tzinfo=dt.timezone.utc)
@@ -105,6 +106,7 @@ class VDT(dt.datetime):
 
 def setup(opts):
     run.datetime = VDT
+    patchall.replace_everywhere(dt.datetime, VDT)   # wherever else the package reads the clock
 
 
 def pep495_zone(kind, zone):
